@@ -484,6 +484,19 @@ func ExtendVoucher[T protocol.PublicKeyOrChain](v *Voucher, owner crypto.Signer,
 		return nil, fmt.Errorf("error marshaling next owner public key: %w", err)
 	}
 
+	// The next owner key must copy the type and size/curve of the manufacturer key
+	nextOwnerPub, err := nextOwnerPublicKey.Public()
+	if err != nil {
+		return nil, fmt.Errorf("error parsing next owner public key: %w", err)
+	}
+	mfgPub, err := v.Header.Val.ManufacturerKey.Public()
+	if err != nil {
+		return nil, fmt.Errorf("error parsing manufacturer key from header: %w", err)
+	}
+	if !sameKeyTypeAndSize(mfgPub, nextOwnerPub) {
+		return nil, fmt.Errorf("next owner key for voucher extension did not match the type and size/curve of the manufacturer key")
+	}
+
 	// Select the appropriate hash algorithm
 	devicePubKey := (*v.CertChain)[0].PublicKey
 	alg, err := hashAlgFor(devicePubKey, ownerPubKey)
@@ -527,6 +540,20 @@ func ExtendVoucher[T protocol.PublicKeyOrChain](v *Voucher, owner crypto.Signer,
 	}
 	xv.Entries = append(xv.Entries, *entry)
 	return xv, nil
+}
+
+// sameKeyTypeAndSize reports whether two public keys are both ECDSA keys on
+// the same curve or both RSA keys of the same modulus size.
+func sameKeyTypeAndSize(a, b crypto.PublicKey) bool {
+	switch a := a.(type) {
+	case *ecdsa.PublicKey:
+		b, ok := b.(*ecdsa.PublicKey)
+		return ok && a.Curve == b.Curve
+	case *rsa.PublicKey:
+		b, ok := b.(*rsa.PublicKey)
+		return ok && a.Size() == b.Size()
+	}
+	return false
 }
 
 // hashAlgFor determines the appropriate hash algorithm to use based on device
